@@ -153,7 +153,7 @@ PROPS = {
         "rule": "version {1.0,1.1} x Connection header {absent, close, keep-alive, upgrade, other tokens, lists (also keep-alive next to close / upgrade), letter case, substrings} "
                 "at every pipeline position, arbitrary bytes after the last request, client half-closing or keeping the connection open; idle: the same conversations on the "
                 "controlled build with 1 s .. 1 h of virtual silence between or inside requests and handlers that take 6..12 s",
-        "required_tags": ["mode:open", "mode:halfclose", "end:waiting", "end:closed", "fam:idle"],
+        "required_tags": ["mode:open", "mode:halfclose", "end:waiting", "end:closed", "fam:idle", "stall:1"],
         "partial": [], "assumptions": CONN_ASSUMPTIONS,
     },
     "C16": {
@@ -272,7 +272,7 @@ PROPS = {
                 "beyond usize::MAX (body absent / short), chunk sizes up to and beyond 16 hex digits, 1000..20000 headers, 0.1..3 MB lines, NUL/control/non-ASCII garbage, "
                 "truncation everywhere, TE lists with up to 200 NaN/inf/exponent q-values, corner headers, 1000-request pipelines; x handlers {no read, partial, full read} x {respond, drop}; "
                 "predicate: no abnormal exit, no panic anywhere in the process, largest single allocation <= 256 KiB + 16 x bytes sent + 8 x bytes received",
-        "required_tags": ["tag:cl", "tag:chunksize", "tag:te", "tag:line", "tag:headers", "tag:garbage", "tag:truncated", "tag:rst", "tag:rstbody"],
+        "required_tags": ["tag:cl", "tag:chunksize", "tag:te", "tag:line", "tag:headers", "tag:garbage", "tag:truncated", "tag:rst", "tag:rstbody", "tag:rstpipe", "tag:headid"],
         "partial": ["theorem: sizes the modelled logic asks for are bounded (small-body buffer <= 1024, discard reads <= 4 KiB, accepted lengths representable), TE comparison is a strict weak order, the model is total",
                     "observed only: completeness of the panic inventory, allocator behaviour, process exit status"],
         "assumptions": CONN_ASSUMPTIONS + ["the allocation bound includes the harness's own buffers for the observation (hence the terms in bytes sent/received)"],
